@@ -172,17 +172,42 @@ def gen_cases(rng, tier):
         'none': ('lsft', ['t20'], False),
         'multi': ('(multi lctl lsft)', ['d31', 't20'], True),
     }
-    for i in range(40 if tier == 'quick' else 600):
+    for i in range(60 if tier == 'quick' else 900):
         mech = rng.choice(sorted(MECH))
         act, pre, active = MECH[mech]
-        form = rng.choice(['fork', 'switch'])
+        form = rng.choice(['fork', 'switch', 'fork-chord-left', 'fork-chord-right', 'switch-chord'])
         trig = rng.choice(['lsft', 'lsft rsft', 'lalt lsft'])
-        decider = '(fork x y (%s))' % trig if form == 'fork' else '(switch ((or %s)) y break () x break)' % trig
-        cfg = '(defsrc a s d)\n(deflayer l0 %s %s (release-key lsft))\n(defvirtualkeys vk lsft)' % (decider, act)
+        # the branches as plain keys, or one of them a defchords key (resolved by a separate parser pass; one group per key, since a
+        # position can stand for only one key of a group): x = not active, y = active
+        decider = {'fork': '(fork x y (%s))' % trig,
+                   'switch': '(switch ((or %s)) y break () x break)' % trig,
+                   'fork-chord-left': '(fork (chord gx kx) y (%s))' % trig,
+                   'fork-chord-right': '(fork x (chord gy ky) (%s))' % trig,
+                   'switch-chord': '(switch ((or %s)) (chord gy ky) break () (chord gx kx) break)' % trig}[form]
+        cfg = '(defsrc a s d)\n(deflayer l0 %s %s (release-key lsft))\n(defvirtualkeys vk lsft)%s%s' % (
+            decider, act, '\n(defchords gx 20 (kx) x)' if 'gx' in decider else '', '\n(defchords gy 20 (ky) y)' if 'gy' in decider else '')
         h = ['t3'] + pre + ['d30', 't5', 'u30', 't30', 'u31', 'u32', 't600']
         cases.append({'id': 'c10-active-%d' % i, 'cfg': cfg, 'hist': h, 'sub': 'ksim', 'active': active, 'mech': mech,
                       'tags': {'kind': 'active-key-by-' + mech, 'form': form}})
+    # key-timing thresholds and the processing loop: the loop may not sleep before the largest threshold of the configuration has
+    # passed since the last key (the key-history clock only runs with ticks); thresholds in both orders, gaps around them
+    from checks.common import loop_pairs
+    lp = []
+    for i in range(30 if tier == 'quick' else 500):
+        big, small = rng.choice([300, 1000, 2500]), rng.choice([20, 100])
+        first, second = (big, small) if rng.random() < 0.6 else (small, big)
+        cfg = ('(defsrc a s)\n(deflayer l0 b (switch ((key-timing 1 gt %d)) x break ((key-timing 1 lt %d)) y break () z break))' % (first, second))
+        h = ['t3']
+        for _ in range(rng.randint(1, 3)):
+            h += ['d30', 't3', 'u30', 't%d' % rng.choice([10, small - 1, small + 5, big - 1, big + 50, 3 * big]), 'd31', 't3', 'u31', 't20']
+        lp.append({'id': 'c10-timing-%d' % i, 'cfg': cfg, 'hist': h, 'sub': 'ksim', 'tags': {'kind': 'key-timing-loop', 'order': 'big-first' if first == big else 'small-first'}})
+    cases += loop_pairs(lp)
     return cases
+
+
+def post(all_results, run_impl, rng, tier, stats):
+    from checks.common import loop_pair_violations
+    return loop_pair_violations(all_results)
 
 
 def flat(f):
@@ -295,6 +320,7 @@ def oracle(case, it):
 
 
 SPEC = {
+    'post': post,
     'id': 'C10',
     'sub': 'swev',
     'gen_cases': gen_cases,
